@@ -264,7 +264,7 @@ def _run_exe(exe, lines, timeout, env=None):
     if env:
         e.update(env)
     try:
-        p = subprocess.run("ulimit -s unlimited 2>/dev/null; ulimit -v 8000000 2>/dev/null; exec " + exe,
+        p = subprocess.run("ulimit -s unlimited 2>/dev/null; ulimit -v 4000000 2>/dev/null; exec " + exe,
                            shell=True, input=data, stdout=subprocess.PIPE, stderr=subprocess.DEVNULL,
                            timeout=timeout, env=e)
         out = p.stdout
